@@ -1,4 +1,5 @@
 """C09 - RenderTree draws every tree faithfully; prefixes encode each node's position."""
+import collections
 from hypothesis import strategies as st
 
 from anytree import AbstractStyle, AnyNode, AsciiStyle, ContRoundStyle, ContStyle, DoubleStyle, Node, RenderTree, SymlinkNode
@@ -274,6 +275,10 @@ def _rows_once(case, acc, tree, labels, cls):
                 val = list(spec["v"])
             elif spec["t"] == "tuple":
                 val = tuple(spec["v"])
+            elif spec["t"] == "range":
+                val = range(*spec["v"])  # a sequence, but neither list nor tuple: printed as ONE value, like any other object
+            elif spec["t"] == "deque":
+                val = collections.deque(spec["v"])
             else:
                 val = spec["v"]
             realvals[id(node)] = val
@@ -397,6 +402,8 @@ VALUE = st.one_of(
     st.lists(LINE, max_size=3).map(lambda v: {"t": "list", "v": v}),
     st.lists(LINE, max_size=3).map(lambda v: {"t": "tuple", "v": v}),
     st.integers(-5, 5).map(lambda v: {"t": "int", "v": v}),
+    st.tuples(st.integers(0, 2), st.integers(0, 4)).map(lambda v: {"t": "range", "v": list(v)}),
+    st.lists(st.integers(0, 3), max_size=3).map(lambda v: {"t": "deque", "v": v}),
     st.just({"t": "missing"}),
     st.just({"t": "str", "v": [""]}),
 )
